@@ -69,8 +69,8 @@ type Node struct {
 	serveErr error
 	gone     chan struct{} // closed when the incarnation crashed or was shut down
 	goneOnce sync.Once
-	crashed  bool
-	stopped  bool
+	crashedF int32
+	stoppedF int32
 	exited   int32 // Serve returned
 }
 
@@ -115,12 +115,22 @@ func (c *Cluster) liveNodes() []*Node {
 	defer c.mu.Unlock()
 	var out []*Node
 	for _, n := range c.nodes {
-		if !n.crashed && !n.stopped && atomic.LoadInt32(&n.exited) == 0 {
+		if !n.isCrashed() && !n.isStopped() && atomic.LoadInt32(&n.exited) == 0 {
 			out = append(out, n)
 		}
 	}
 	sort.Slice(out, func(i, j int) bool { return out[i].nid < out[j].nid })
 	return out
+}
+
+func (n *Node) isCrashed() bool { return atomic.LoadInt32(&n.crashedF) != 0 }
+func (n *Node) isStopped() bool { return atomic.LoadInt32(&n.stoppedF) != 0 }
+
+// alive tells whether the incarnation is neither stopped, crashed nor exited.
+func (n *Node) alive() bool {
+	n.cl.mu.Lock()
+	defer n.cl.mu.Unlock()
+	return !n.isCrashed() && !n.isStopped() && atomic.LoadInt32(&n.exited) == 0
 }
 
 func (c *Cluster) nodeIDs() []uint64 {
@@ -199,11 +209,11 @@ func (c *Cluster) start(nid uint64, dir string) (*Node, error) {
 // finish within the (generous, wall clock) watchdog.
 func (n *Node) shutdown(watchdog time.Duration) bool {
 	n.cl.mu.Lock()
-	if n.stopped || n.crashed {
+	if n.isStopped() || n.isCrashed() {
 		n.cl.mu.Unlock()
 		return true
 	}
-	n.stopped = true
+	atomic.StoreInt32(&n.stoppedF, 1)
 	n.cl.mu.Unlock()
 	n.cl.rc.emitNode(n.dir, &ev.Rec{K: "shutdown-call"})
 	ctx, cancel := context.WithTimeout(context.Background(), watchdog)
@@ -242,7 +252,7 @@ func (c *Cluster) restart(nid uint64) (*Node, error) {
 
 // crash arms a hard crash of nid at the occ-th next occurrence of point.
 func (c *Cluster) crash(nid uint64, point string, occ int) {
-	if n := c.node(nid); n != nil && !n.crashed && !n.stopped {
+	if n := c.node(nid); n != nil && !n.isCrashed() && !n.isStopped() {
 		c.pc.planCrash(n.dir, point, occ)
 	}
 }
@@ -257,7 +267,7 @@ func (c *Cluster) onCrash(dir, image, point string, occ int) {
 		}
 	}
 	if n != nil {
-		n.crashed = true
+		atomic.StoreInt32(&n.crashedF, 1)
 	}
 	c.mu.Unlock()
 	if n == nil {
@@ -272,7 +282,7 @@ func (c *Cluster) recoverCrashed() {
 	c.mu.Lock()
 	var todo []*Node
 	for _, n := range c.nodes {
-		if n.crashed {
+		if n.isCrashed() {
 			todo = append(todo, n)
 		}
 	}
@@ -515,7 +525,7 @@ func (c *Cluster) shutdownAll() {
 	c.taskMu.Lock()
 	defer c.taskMu.Unlock()
 	for _, tt := range c.tasks {
-		if tt.n.crashed {
+		if tt.n.isCrashed() {
 			continue
 		}
 		select {
